@@ -1,6 +1,6 @@
 """C04 (bounded stand-in): structural Verilog write-then-read returns the same netlist."""
-from props import _rtb
-LEVEL = 'exploration'
+from props import _rtb, _pv
+LEVEL = 'other'
 PID = 'C04'
 SCRIPT = 'b_c04.py'
 SPEC = {'quick': {'designs': 150, 'styles': 2, 'files': {'verilog': 30000}, 'limit': 20, 'file_limit': 60},
@@ -12,13 +12,19 @@ RULE = ('case = (netlist the Verilog reader returns for text of the independent 
 
 
 def run(rep, tier, seed):
-    rep.explanation = ('bounded stand-in only: canon(parse(compose(t(parse(f))))) == canon(t(parse(f))) for t in none/clone/uniquify/flatten: '
+    failed = _pv.run_suite(rep, PID, 'vcomposer', tier)
+    rep.explanation = ("helper level (P): Composer._index_of_wire_in_cable(wire) == position of the wire in its cable + the cable's lower_index, never None for a wire of a cable, for all heaps satisfying Inv; everything else: "
+                       'bounded stand-in: canon(parse(compose(t(parse(f))))) == canon(t(parse(f))) for t in none/clone/uniquify/flatten: '
                        'modules, port directions/widths/bases, wires, instances with parameters and attributes, bit-level joins, assigns as '
                        'joined bit pairs; written text accepted; Inv of the re-read netlist. Normalisations from the support page: undefined '
                        'port direction is written as inout; cables that exist only because a port implies them are ignored on both sides')
     rep.assumptions.append('tier B: everything outside the stated bounds is unexplored; flatten is applied after uniquify (its precondition)')
     _rtb.run(rep, PID, SCRIPT, tier, seed, SPEC, RULE, extra={'transform_files_below': 12000}, gen_bounds=_rtb.HIER_BOUNDS)
+    _pv.report_failed(rep, failed)
+    rep.trusted = list(getattr(rep, 'trusted', []) or []) + ['pyvc VC generator (DESIGN.md 3), z3/cvc5', 'IR heap model, positional list axioms (at/idx) of pyvc/logic.py']
+    rep.assumptions.append('Bundle.lower_index holds an int (documented type); the netlist satisfies Inv')
 
 
 def replay(path):
+    if _pv.replay_obligation(path): return 0
     return _rtb.replay(path, PID, SCRIPT)
